@@ -120,13 +120,24 @@ def _run_case_child(case, d):
             G.build(pre, d / "src")(cache_root=cache, worker="debug")
         except Exception as e:  # noqa: the prefix itself does not run (C03's business); go on cold
             data["precache_failed"] = f"{type(e).__name__}"
+    rerun = bool(case.get("rerun"))
+    if rerun:
+        # a complete earlier run of the same workflow in the same cache root; the run under
+        # observation then re-executes everything (rerun=True, propagated to the nodes)
+        os.environ.pop("VERIF_GATE", None)
+        try:
+            G.build(prog, d / "src")(cache_root=cache, worker="debug")
+        except Exception as e:  # noqa
+            data["precache_failed"] = f"{type(e).__name__}"
     gate = sched.make_gate(d / "gate")
     sched.set_failures(gate, case.get("fails") or [])
     task = G.build(prog, d / "src")
     worker = case.get("worker", "sched")
     if worker == "sched":
         res, w = sched.run_scheduled(task, cache, gate, case.get("choices") or [],
-                                     max_concurrent=case.get("k"), n_procs=case.get("n_procs", 8))
+                                     max_concurrent=case.get("k"), n_procs=case.get("n_procs", 8),
+                                     hold_report=case.get("hold") or (), rerun=rerun,
+                                     propagate_rerun=True)
         data.update(max_blocked=w.max_blocked, releases=list(w.releases), settle_timeouts=w.settle_timeouts)
     else:
         open(os.path.join(gate, "free"), "w").close()
@@ -138,8 +149,8 @@ def _run_case_child(case, d):
             kw["n_procs"] = case.get("n_procs", 4)
         try:
             try:
-                with Submitter(worker=worker, cache_root=cache, **kw) as sub:
-                    res = sub(task, raise_errors=False)
+                with Submitter(worker=worker, cache_root=cache, propagate_rerun=True, **kw) as sub:
+                    res = sub(task, raise_errors=False, rerun=rerun)
             except Exception as e:  # noqa
                 res = e
         finally:
